@@ -137,7 +137,7 @@ def build_harness():
     return rc, out
 
 
-def run_shards(outdir, shards, jobs=16):
+def run_shards(outdir, shards, jobs=12):
     """evaluate every case file with coqc (vm_compute inside); returns list of mismatches"""
     procs = []
     results = {}
@@ -163,8 +163,14 @@ def run_shards(outdir, shards, jobs=16):
     errors = []
     for s in shards:
         rc, out = results[s]
+        if rc != 0 and "Error" not in out:
+            # killed (memory pressure when many shards run at once) or timed out: retry once, alone
+            p = subprocess.run(["timeout", "3400", "coqc", "-noglob"] + COQFLAGS + [s], cwd=outdir,
+                               stdout=subprocess.PIPE, stderr=subprocess.STDOUT, text=True, env=env)
+            rc, out = p.returncode, p.stdout
+            results[s] = (rc, out)
         if rc != 0:
-            errors.append((s, out[-3000:]))
+            errors.append((s, "rc=%d\n%s" % (rc, out[-3000:])))
             continue
         m = re.search(r"M\s*=\s*(.*?)\n\s*:\s*list", out, flags=re.S)
         if not m:
